@@ -258,15 +258,14 @@ def check_property(pid, tier="quick", seed=0, verbose=True):
         if not paths:
             vac_errors.append(f"{ident}: no path reaches a normal return")
             continue
-        ok = False
-        for hyps in paths[:24]:
-            s = z3.Solver()
-            s.set("timeout", 5000)
-            s.add(*hyps)
-            r = s.check()
-            if r != z3.unsat:
-                ok = True
-                break
+        # (run in the worker pool: z3's own timeout is not always honoured in-process; the workers have a
+        #  watchdog that interrupts the solver)
+        ptasks = []
+        for k_, hyps in enumerate(paths[:24]):
+            s_ = z3.Solver()
+            s_.add(*hyps)
+            ptasks.append((k_, s_.to_smt2(), 5000, "probe"))
+        ok = any(r_["result"] != "unsat" for r_ in solve_all(ptasks))
         if not ok:
             vac_errors.append(f"{ident}: every return path is infeasible under the preconditions (vacuous contract)")
     def _fails_now(v):
